@@ -14,6 +14,10 @@ type GenSpec struct {
 	// Mode: "main" (every construct poisoned by an open finding is off) or "poison:<tag>"
 	// (exactly that construct is switched on and forced to occur).
 	Mode string `json:"mode"`
+	// Focus: "" (the general mix) or "loopctl" (same constructs, but the statement mix is shifted to
+	// loops whose bodies carry break/continue/return inside every kind of carrier construct: the
+	// population the transformer's loop-control guard is about).
+	Focus string `json:"focus,omitempty"`
 }
 
 // feat says which constructs outside the currently reliable fragment may be generated.
@@ -128,12 +132,14 @@ type gen struct {
 	r       *fw.Rng
 	f       feat
 	force   string
+	focus   string
 	lines   []string
 	ind     int
 	scopes  [][]*gv
 	nvar    int
 	fns     []gfn
 	inLoop  int
+	ctrs    []string // counters / iteration variables of the enclosing loops, innermost last
 	ret     string // return type of the function being generated ("" null, "-" = main)
 	inFn    bool
 	capPool []string
@@ -571,6 +577,15 @@ func (g *gen) assignStmt(d int) {
 	g.printVar(v)
 }
 
+// loopBody: the body of a loop whose counter / iteration variable is ctr.
+func (g *gen) loopBody(ctr string, n, d int) {
+	g.inLoop++
+	g.ctrs = append(g.ctrs, ctr)
+	g.body(n, d)
+	g.ctrs = g.ctrs[:len(g.ctrs)-1]
+	g.inLoop--
+}
+
 func (g *gen) body(n, d int) {
 	g.ind++
 	g.push()
@@ -581,43 +596,291 @@ func (g *gen) body(n, d int) {
 	g.ind--
 }
 
+// cond: a condition for an exit or one of its carriers. Inside a loop it mostly depends on the
+// innermost loop's counter, so that over the iterations both outcomes occur: an exit that is never
+// taken (or always taken in the first iteration) would hide a captured break/continue.
+func (g *gen) cond() string {
+	if n := len(g.ctrs); n > 0 && g.r.Chance(3, 4) {
+		v := g.ctrs[n-1]
+		if n > 1 && g.r.Chance(1, 5) {
+			v = g.ctrs[n-2]
+		}
+		k := g.r.Intn(4)
+		switch g.r.Intn(6) {
+		case 0:
+			return fmt.Sprintf("%s == %d", v, k)
+		case 1:
+			return fmt.Sprintf("%s != %d", v, k)
+		case 2:
+			return fmt.Sprintf("%s > %d", v, k)
+		case 3:
+			return fmt.Sprintf("%s <= %d", v, k)
+		case 4:
+			return fmt.Sprintf("%s %% 2 == %d", v, k%2)
+		default:
+			return fmt.Sprintf("%s >= %d && %s", v, k, g.boolExpr(1, true).at(pAnd+1))
+		}
+	}
+	return g.boolExpr(1, true).s
+}
+
+// exitStmt emits a (mostly conditional) exit appropriate to the context: break/continue in loops,
+// return in functions. The exit keyword sits inside a randomly chosen tower of carrier constructs
+// (see exitIn): the transformer's loop wrappers (`while count_once < 1 {..}`, `for _i in 0..1 {..}`)
+// may be applied to a statement only if no break/continue can be reached in it without crossing a
+// loop, whatever the constructs in between are.
 func (g *gen) exitStmt() {
-	// a conditional exit appropriate to the context
-	c := g.boolExpr(1, true)
+	if g.noExit > 0 {
+		g.emit(`println("noexit", %s);`, g.boolExpr(1, true).s)
+		return
+	}
+	leaf := ""
 	switch {
-	case g.noExit > 0:
-		g.emit(`println("noexit", %s);`, c.s)
-	case g.inLoop > 0 && g.r.Chance(1, 4):
-		// the exit is the tail expression of a nested block (no `;` after the inner if)
-		c2 := g.boolExpr(1, true)
-		g.emit("if %s {", c.s)
-		g.ind++
-		g.emit(`println("exit-nested");`)
-		g.emit("if %s { %s; }", c2.s, pick2(g.r, "break", "continue"))
-		g.ind--
-		g.emit("};")
-	case g.inLoop > 0 && g.r.Chance(2, 3):
-		g.emit("if %s {", c.s)
-		g.ind++
-		g.emit(`println("exit");`)
-		g.emit("%s;", pick2(g.r, "break", "continue"))
-		g.ind--
-		g.emit("};")
+	case g.inLoop > 0 && g.r.Chance(11, 12):
+		leaf = pick2(g.r, "break", "continue")
 	case g.inFn && g.ret != "" && g.ret != "-":
-		g.emit("if %s {", c.s)
-		g.ind++
-		g.emit("return %s;", g.exprOf(g.ret, 1, true).s)
-		g.ind--
-		g.emit("};")
+		leaf = "return " + g.exprOf(g.ret, 1, true).s
 	case g.inFn && g.ret == "" && g.f.bareReturn:
-		g.emit("if %s {", c.s)
-		g.ind++
-		g.emit(`println("early");`)
-		g.emit("return;")
-		g.ind--
-		g.emit("};")
+		leaf = "return"
+	case g.inLoop > 0:
+		leaf = pick2(g.r, "break", "continue")
 	default:
-		g.emit(`println("noexit", %s);`, c.s)
+		g.emit(`println("noexit", %s);`, g.boolExpr(1, true).s)
+		return
+	}
+	depth := 0
+	switch g.r.Intn(8) {
+	case 0, 1, 2:
+		depth = 1
+	case 3, 4:
+		depth = 2
+	case 5:
+		depth = 3
+	}
+	if g.focus == "loopctl" && depth == 0 && g.r.Bool() {
+		depth = 1 + g.r.Intn(2)
+	}
+	g.exitIn(depth, false, false, leaf)
+	if g.inLoop > 0 {
+		// what a captured break/continue would wrongly reach
+		g.emit(`println("post");`)
+	}
+}
+
+// semi: a carrier that is the last element of its block is sometimes its tail expression.
+func (g *gen) semi(last bool) string {
+	if last && g.r.Chance(1, 3) {
+		return ""
+	}
+	return ";"
+}
+
+// exitIn emits one statement that contains `leaf` (break / continue / return ..) below d nested
+// carrier constructs. guarded: an enclosing carrier already makes the exit conditional. last: the
+// statement is the last element of the enclosing block (it may then be a tail expression).
+//
+// Carriers: if (then / else / else-if branch), block statement, try block, catch block, both blocks
+// of a try, non-default match arm, and value blocks in every expression position the transformer
+// passes through unchanged or rebuilds (call argument, assignment and compound assignment, list
+// element, index, cast operand, prefix operand, right operand of `/`, let initialiser).
+//
+// Deliberately NOT generated (genuine defects of the unchanged transformer, see the final report
+// of the strengthening round / FINDINGS.md §9-§11):
+//   - break/continue in the DEFAULT arm of a match (exprCanControlLoop skips DefaultArmAction);
+//   - break/continue inside a while CONDITION block (WhileStmtAsLoop moves the condition into a
+//     new `loop`, which captures it);
+//   - a diverging branch in value position (`let x = if c { continue; } else { 1 };`): the branch's
+//     exit is rewrapped into a null-typed statement (same root cause as KF-c20-final-diverge).
+func (g *gen) exitIn(d int, guarded, last bool, leaf string) {
+	if d <= 0 {
+		if guarded && g.r.Chance(1, 3) {
+			g.emit("%s;", leaf)
+			return
+		}
+		g.emit("if %s { %s; }%s", g.cond(), leaf, g.semi(last))
+		return
+	}
+	in := func(f func()) {
+		g.ind++
+		g.push()
+		f()
+		g.pop()
+		g.ind--
+	}
+	say := func(what string) { g.emit(`println("%s");`, what) }
+	switch g.r.Intn(12) {
+	case 0, 1: // then branch
+		g.emit("if %s {", g.cond())
+		in(func() {
+			say("exit-then")
+			g.exitIn(d-1, true, true, leaf)
+		})
+		if g.r.Chance(1, 3) {
+			g.emit("} else {")
+			in(func() { say("exit-not") })
+		}
+		g.emit("}%s", g.semi(last))
+	case 2: // else branch
+		g.emit("if %s {", g.cond())
+		in(func() { say("stay") })
+		g.emit("} else {")
+		in(func() {
+			if g.r.Bool() {
+				say("exit-else")
+			}
+			g.exitIn(d-1, true, true, leaf)
+		})
+		g.emit("}%s", g.semi(last))
+	case 3: // else-if branch
+		g.emit("if %s {", g.cond())
+		in(func() { say("stay") })
+		g.emit("} else if %s {", g.cond())
+		in(func() { g.exitIn(d-1, true, true, leaf) })
+		if g.r.Bool() {
+			g.emit("} else {")
+			in(func() { say("stay-else") })
+		}
+		g.emit("}%s", g.semi(last))
+	case 4: // block statement
+		g.emit("{")
+		in(func() {
+			if g.r.Bool() {
+				say("blk")
+			}
+			tail := g.r.Bool()
+			g.exitIn(d-1, guarded, tail, leaf)
+			if !tail {
+				say("blk-rest")
+			}
+		})
+		g.emit("}%s", g.semi(last))
+	case 5, 6: // try block (the catch block has no exit)
+		g.emit("try {")
+		in(func() {
+			say("try")
+			if g.r.Chance(1, 3) {
+				g.emit(`if %s { throw("t%d"); };`, g.cond(), g.r.Intn(9))
+			}
+			tail := g.r.Bool()
+			g.exitIn(d-1, guarded, tail, leaf)
+			if !tail {
+				say("try-rest")
+			}
+		})
+		g.emit("} catch e {")
+		in(func() { g.emit(`println("caught", e.message);`) })
+		g.emit("}%s", g.semi(last))
+	case 7: // catch block (the try block has no exit)
+		always := g.r.Bool()
+		g.emit("try {")
+		in(func() {
+			say("try")
+			if always {
+				g.emit(`throw("c%d");`, g.r.Intn(9))
+			} else {
+				g.emit(`if %s { throw("c%d"); };`, g.cond(), g.r.Intn(9))
+				say("try-rest")
+			}
+		})
+		g.emit("} catch e {")
+		in(func() {
+			g.emit(`println("caught", e.message);`)
+			g.exitIn(d-1, guarded || !always, true, leaf)
+		})
+		g.emit("}%s", g.semi(last))
+	case 8: // both blocks of a try
+		g.emit("try {")
+		in(func() {
+			g.emit(`if %s { throw("b%d"); };`, g.cond(), g.r.Intn(9))
+			g.exitIn(d-1, guarded, false, leaf)
+			say("try-rest")
+		})
+		g.emit("} catch e {")
+		in(func() {
+			g.emit(`println("caught", e.message);`)
+			g.exitIn(d-1, true, true, leaf)
+		})
+		g.emit("}%s", g.semi(last))
+	case 9: // non-default match arm
+		ctl := g.intExpr(1, true)
+		k := 2 + g.r.Intn(3)
+		arm := g.r.Intn(k)
+		g.emit("match (%s) %% %d {", ctl.s, k)
+		g.ind++
+		for a := 0; a < k; a++ {
+			if a == arm {
+				g.emit("%d => {", a)
+				in(func() {
+					if g.r.Bool() {
+						say("arm-exit")
+					}
+					g.exitIn(d-1, true, true, leaf)
+				})
+				g.emit("},")
+			} else if g.r.Chance(2, 3) {
+				g.emit(`%d => println("arm%d"),`, a, a)
+			}
+		}
+		if g.r.Chance(2, 3) {
+			g.emit(`_ => println("arm-other"),`)
+		}
+		g.ind--
+		g.emit("}%s", g.semi(last))
+	default: // a value block in expression position
+		g.exitInValue(d, leaf)
+	}
+}
+
+// exitInValue: the exit sits in the statements of a block whose value is used by an expression.
+func (g *gen) exitInValue(d int, leaf string) {
+	open, close := "", ""
+	val := fmt.Sprint(1 + g.r.Intn(9))
+	after := ""
+	switch g.r.Intn(10) {
+	case 0:
+		open, close = `println("arg", {`, `});`
+	case 1:
+		open, close = `println("targ", tick({`, `}));`
+	case 2, 3:
+		if v := g.pickVar(func(v *gv) bool { return !v.ro && v.t == "int" }); v != nil {
+			open, close = v.name+" "+pick2(g.r, "=", "+=")+" {", "};"
+			after = fmt.Sprintf(`println("%s", %s);`, v.name, v.name)
+		}
+	case 4:
+		open, close = `println("el", [{`, fmt.Sprintf(`}, %d]);`, g.r.Intn(50))
+	case 5:
+		if l := g.pickVar(func(v *gv) bool { return v.t == "list" && v.n > 0 }); l != nil {
+			open, close = `println("ix", `+l.name+"[{", "}]);"
+			val = fmt.Sprint(g.r.Intn(l.n))
+		}
+	case 6:
+		open, close = `println("cast", {`, `} as float);`
+	case 7:
+		open, close = `println("neg", -({`, `}));`
+	case 8:
+		open, close = fmt.Sprintf(`println("quot", %d / {`, 100+g.r.Intn(900)), `});`
+	}
+	letName := ""
+	if open == "" {
+		letName = g.fresh("int")
+		open, close = "let "+letName+" = {", "};"
+		after = fmt.Sprintf(`println("%s", %s);`, letName, letName)
+	}
+	g.emit("%s", open)
+	g.ind++
+	g.push()
+	// the statement must not diverge unconditionally: the block would be typed `never`, and a let
+	// bound to it is printed as `let v: never = ..`, which does not parse (printer defect, C19)
+	g.exitIn(d-1, false, false, leaf)
+	g.emit("%s", val)
+	g.pop()
+	g.ind--
+	g.emit("%s", close)
+	if letName != "" {
+		g.declare(&gv{name: letName, t: "int"})
+	}
+	if after != "" {
+		g.emit("%s", after)
 	}
 }
 
@@ -631,7 +894,18 @@ func (g *gen) stmt(d int) {
 		}
 		return
 	}
-	switch g.r.Intn(20) {
+	k := g.r.Intn(20)
+	if g.focus == "loopctl" {
+		switch {
+		case g.inLoop > 0 && g.noExit == 0 && g.r.Chance(2, 5):
+			k = 13
+		case g.inLoop == 0 && g.r.Chance(1, 3):
+			k = 9 + g.r.Intn(4)
+		case g.inLoop > 0 && g.r.Chance(1, 8):
+			k = 18
+		}
+	}
+	switch k {
 	case 0, 1, 2, 3, 4:
 		g.letStmt(2)
 	case 5, 6, 7:
@@ -656,9 +930,7 @@ func (g *gen) stmt(d int) {
 		g.ind++
 		g.emit("%s += 1;", name)
 		g.ind--
-		g.inLoop++
-		g.body(1+g.r.Intn(3), d-1)
-		g.inLoop--
+		g.loopBody(name, 1+g.r.Intn(3), d-1)
 		g.emit("}")
 	case 10: // loop with break
 		name := g.fresh("int")
@@ -671,9 +943,7 @@ func (g *gen) stmt(d int) {
 		g.emit("    break;")
 		g.emit("};")
 		g.ind--
-		g.inLoop++
-		g.body(1+g.r.Intn(3), d-1)
-		g.inLoop--
+		g.loopBody(name, 1+g.r.Intn(3), d-1)
 		g.emit("}")
 	case 11: // for over a range
 		name := g.fresh("int")
@@ -685,9 +955,7 @@ func (g *gen) stmt(d int) {
 		g.emit("for %s in 0..%s%d {", name, incl, hi)
 		g.push()
 		g.declare(&gv{name: name, t: "int", small: true, ro: true})
-		g.inLoop++
-		g.body(1+g.r.Intn(3), d-1)
-		g.inLoop--
+		g.loopBody(name, 1+g.r.Intn(3), d-1)
 		g.pop()
 		g.emit("}")
 	case 12: // for over a list
@@ -696,9 +964,7 @@ func (g *gen) stmt(d int) {
 			g.emit("for %s in %s {", name, l.name)
 			g.push()
 			g.declare(&gv{name: name, t: "int", ro: true})
-			g.inLoop++
-			g.body(1+g.r.Intn(2), d-1)
-			g.inLoop--
+			g.loopBody(name, 1+g.r.Intn(2), d-1)
 			g.pop()
 			g.emit("}")
 		} else {
@@ -729,16 +995,28 @@ func (g *gen) stmt(d int) {
 		g.emit("};")
 		g.noExit--
 		g.printVar(g.declare(&gv{name: name, t: "int"}))
-	case 18: // try / catch in the same function
+	case 18: // try / catch in the same function; both blocks are general bodies (exits included)
 		g.emit("try {")
 		g.ind++
 		g.emit(`println("try");`)
-		if g.r.Bool() {
+		g.ind--
+		if n := g.r.Intn(3); n > 0 {
+			g.body(n, d-1)
+		}
+		g.ind++
+		switch g.r.Intn(4) {
+		case 0, 1:
 			g.emit(`throw("boom%d");`, g.r.Intn(9))
+		case 2:
+			g.emit(`if %s { throw("boom%d"); };`, g.boolExpr(1, true).s, g.r.Intn(9))
+			g.emit(`println("try-end");`)
 		}
 		g.ind--
 		g.emit("} catch e {")
 		g.emit(`    println("caught", e.message);`)
+		if n := g.r.Intn(3); n > 0 {
+			g.body(n, d-1)
+		}
 		g.emit("};")
 	default:
 		g.emit(`println("p", %s, %s);`, g.intExpr(2, false).s, g.boolExpr(1, false).s)
@@ -820,7 +1098,7 @@ func (g *gen) function(idx int) {
 // Source generates the program text.
 func (s *GenSpec) Source() string {
 	f, force := features(s.Mode)
-	g := &gen{r: fw.NewRng(s.Seed), f: f, force: force, ret: "-", budget: 4 * s.Size}
+	g := &gen{r: fw.NewRng(s.Seed), f: f, force: force, focus: s.Focus, ret: "-", budget: 4 * s.Size}
 	if f.identCapture {
 		g.capPool = []string{"mul_count", "count_once", "_i", "lhs_init", "mul_res"}
 		// shuffle deterministically
@@ -953,17 +1231,20 @@ func (g *gen) forced() {
 
 // genCases builds the generated part of the workload.
 func genCases(tier string, seed uint64) []fw.Case {
-	nMain, nPoison, nSeeds := 260, 24, 8
+	nMain, nFocus, nPoison, nSeeds := 260, 40, 24, 8
 	passes := []int{1, 2, 3}
 	if tier == "thorough" {
-		nMain, nPoison, nSeeds = 1500, 60, 24
+		nMain, nFocus, nPoison, nSeeds = 1500, 240, 60, 24
 		passes = []int{1, 2, 3, 5}
 	}
 	r := fw.NewRng(seed ^ 0xC20)
 	var cases []fw.Case
-	mk := func(id, kind, mode string, wantTag string) {
+	mk := func(id, kind, mode, focus string, wantTag string) {
 		for try := 0; try < 50; try++ {
-			spec := GenSpec{Seed: r.Next(), Size: 5 + r.Intn(12), Mode: mode}
+			spec := GenSpec{Seed: r.Next(), Size: 5 + r.Intn(12), Mode: mode, Focus: focus}
+			if focus != "" {
+				spec.Size = 3 + r.Intn(6)
+			}
 			src := spec.Source()
 			tags, ok := ConstructTags(map[string]string{"main": src})
 			if !ok && wantTag != "" {
@@ -1005,14 +1286,18 @@ func genCases(tier string, seed uint64) []fw.Case {
 		}
 	}
 	for i := 0; i < nMain; i++ {
-		mk(fmt.Sprintf("c20-gen-%d", i), "gen", "main", "")
+		mk(fmt.Sprintf("c20-gen-%d", i), "gen", "main", "", "")
+	}
+	// the loop-control population: loops whose bodies carry exits below every kind of carrier
+	for i := 0; i < nFocus; i++ {
+		mk(fmt.Sprintf("c20-loopctl-%d", i), "gen", "main", "loopctl", "")
 	}
 	for _, t := range allTags {
 		if !fw.KFOpen(kfOf[t]) {
 			continue // not poisoned: the construct is part of the main workload
 		}
 		for i := 0; i < nPoison; i++ {
-			mk(fmt.Sprintf("c20-%s-%d", t, i), "gen-poisoned", "poison:"+t, t)
+			mk(fmt.Sprintf("c20-%s-%d", t, i), "gen-poisoned", "poison:"+t, "", t)
 		}
 	}
 	return cases
